@@ -33,7 +33,7 @@ def main():
         res["confirmed"] = confirmed
         print(f"{pid}-{n}: demo clean={rc0} patched={rc1} tests={rct} -> {'confirmed' if confirmed else 'NOT confirmed'}", flush=True)
         if confirmed:
-            rc, out = sh([sys.executable, os.path.join(ROOT, "harness", "mutate.py"), patch, pid, *extra, "--seeds", "1,2"], cwd=ROOT)
+            rc, out = sh([sys.executable, os.path.join(ROOT, "harness", "mutate.py"), patch, pid, *extra, "--seeds", "1,2,3"], cwd=ROOT)
             last = out.strip().split("\n")[-1]
             try: res["checks"] = json.loads(last)
             except Exception: res["checks"] = {"error": out[-500:]}
